@@ -65,7 +65,10 @@ class Gen:
         self.inside = self.p.get('inside')
         # inside the proven fragments: mixed networks and the interleaved variant bind fresh properties only; destruction and
         # move assignment only touch properties that no live binding reads
-        self.fresh_only = self.inside == 'c06' or (self.inside == 'c02' and self.seed % 2 == 1)
+        self.fresh_only = self.inside == 'c06'
+        self.interleaved = self.inside == 'c02' and self.seed % 2 == 1     # writers, bindings (fresh, late, re-), reset, assignments in any order
+        self.about_hosts = set()
+        self.wtargets = set()      # properties written by observers: binding one would make the observer's write fail (ReadOnlyProperty)
         self.phase2 = False
 
     def emit(self, s):
@@ -142,7 +145,7 @@ class Gen:
         if p is None:
             return
         k = self.r.choice([0, 1, 1, 1, 2])
-        if self.inside == 'c02' and (self.phase2 or self.fresh_only) and self.r.random() < 0.5:
+        if self.inside == 'c02' and (self.phase2 or self.interleaved) and self.r.random() < 0.5:
             # an observer of valueChanged that writes an unbound property ranked above its host
             tgt2 = [q for q, d in self.props.items() if d['rank'] > self.props[p]['rank'] and not d['bound']]
             if tgt2:
@@ -152,8 +155,12 @@ class Gen:
                 self.next_obs += 1
                 # on an unbound host the writer may also listen to valueAboutToChange (it then writes the OLD value)
                 kk = 0 if (not self.props[p]['bound'] and self.r.random() < 0.3) else 1
-                self.emit(f"pobsset {p} {kk} {lab} {h} {self.r.choice(tgt2)}")
+                tq = self.r.choice(tgt2)
+                self.wtargets.add(tq)
+                self.emit(f"pobsset {p} {kk} {lab} {h} {tq}")
                 self.ahosts.add(p)
+                if kk == 0:
+                    self.about_hosts.add(p)
                 return
         lab = self.next_label
         self.next_label += 1
@@ -192,7 +199,7 @@ class Gen:
         elif self.fresh_only:
             return
         else:
-            p = self.pick()
+            p = self.pick((lambda q, d: q not in self.about_hosts and q not in self.wtargets) if self.interleaved else (lambda q, d: True))
             if p is None:
                 return
             rank = self.props[p]['rank']
@@ -261,7 +268,7 @@ class Gen:
     def op_dele(self):
         r = self.r
         c = r.random()
-        if self.inside and self.fresh_only and self.inside == 'c02':
+        if self.interleaved:
             return
         if c < 0.7 or self.inside:
             rd = self.read_props() if self.inside else set()
@@ -287,7 +294,7 @@ class Gen:
         # rank, so hosts of acting observers stay where they are
         if s in self.ahosts:
             return
-        if self.inside == 'c02' and self.fresh_only:
+        if self.interleaved:
             return
         # observers move with the signals of their host: a move must not put an observer that resets q's binding on q itself
         # (the binding would be destroyed inside the notification it is delivering: outside every quantifier)
@@ -448,7 +455,7 @@ class Gen:
         start = len(self.lines)
         while len(self.lines) - start < self.length and guard < 30 * self.length:
             guard += 1
-            if self.inside == 'c02' and not self.fresh_only and not self.phase2 and len(self.lines) - start > 0.6 * self.length:
+            if self.inside == 'c02' and not self.interleaved and not self.phase2 and len(self.lines) - start > 0.6 * self.length:
                 self.phase2 = True
             if self.phase2:
                 fam[r.choice(['set', 'set', 'obs', 'get'])]()
